@@ -222,7 +222,7 @@ impl ReferenceProcessor<u32, (u32, usize), (u32, usize)> for NextReferenceIdProc
             return Some((START_REFERENCE_ID, missing_refs_result));
         }
 
-        Some((ref_id_result + 1, missing_refs_result))
+        Some((ref_id_result.saturating_add(1), missing_refs_result))
     }
 }
 
@@ -454,7 +454,27 @@ impl ReferenceProcessor<Arc<AtomicU32>, InsertReferencesResult, InsertReferences
 
             unwritten_content_start_pos += insert_pos - unwritten_content_start_pos;
 
-            let reference_id = next_reference_id.fetch_add(1, std::sync::atomic::Ordering::Relaxed);
+            /* Take the next ID, refusing to wrap round once the u32 range is exhausted. */
+            let reference_id = match next_reference_id.fetch_update(
+                std::sync::atomic::Ordering::Relaxed,
+                std::sync::atomic::Ordering::Relaxed,
+                |id| id.checked_add(1),
+            )
+            {
+                Ok(id) => id,
+                Err(_) =>
+                {
+                    task::spawn(async {
+                        error!("[ref: 37] Reference ID range exhausted");
+                    })
+                    .await;
+
+                    return Some(InsertReferencesResult {
+                        failure: true,
+                        num_inserted_references: 0,
+                    });
+                },
+            };
             let insertable_ref_id_string = entry.insertable_reference_string(reference_id);
 
             match scratch_file
